@@ -11,21 +11,21 @@ Context {V : Type} (o : ops V).
 (* values of other groups never enter, rows with a null key never enter and get
    the constant null marker: the outputs at the remaining rows are those of the
    kernel run with the null-key rows deleted *)
-Theorem C08_null_keys op skip_na gk vals ng mask :
+Theorem C08_null_keys temporal op skip_na gk vals ng mask :
   length vals = length gk -> length (mask_list (length gk) mask) = length gk ->
-  filter_by (nonnull_key gk) (cumulative o op skip_na gk vals ng mask)
-  = kscan (cum_init o op, 0) (cum_step (reducer_of o (cum_reducer false op skip_na))) (cum_na o op)
+  filter_by (nonnull_key gk) (cumulative_t o temporal op skip_na gk vals ng mask)
+  = kscan (cum_init o op, 0) (cum_step (reducer_of o (cum_reducer temporal op skip_na))) (cum_na o op)
           (filter (fun r : Z * (V * bool) => 0 <=? fst r) (mk_rows gk vals mask)) (repeat (cum_init o op, 0) ng).
 Proof. exact (null_rows_irrelevant _ _ _ _ _ _ gk vals ng mask). Qed.
 
 (* masked rows pass the running value through without changing it: a mask is
    equivalent to filtering the rows first *)
-Theorem C08_mask_is_filter op skip_na gk vals ng m :
+Theorem C08_mask_is_filter temporal op skip_na gk vals ng m :
   length gk = length m -> length vals = length m ->
-  filter_by m (cumulative o op skip_na gk vals ng (Some m))
-  = cumulative o op skip_na (filter_by m gk) (filter_by m vals) ng None.
+  filter_by m (cumulative_t o temporal op skip_na gk vals ng (Some m))
+  = cumulative_t o temporal op skip_na (filter_by m gk) (filter_by m vals) ng None.
 Proof.
-  exact (mask_is_filter _ _ _ (cum_init o op, 0) (cum_step (reducer_of o (cum_reducer false op skip_na))) (cum_na o op)
+  exact (mask_is_filter _ _ _ (cum_init o op, 0) (cum_step (reducer_of o (cum_reducer temporal op skip_na))) (cum_na o op)
            gk vals ng m (fun s v => eq_refl)).
 Qed.
 End C08.
@@ -38,9 +38,13 @@ Theorem C08_reducers_are_the_source's :
   (forall a b c, @g_sum fl fops a b c = r_sum fops a b c) /\
   (forall a b c, @g_nanmin fl fops a b c = r_nanmin fops a b c) /\
   (forall a b c, @g_nanmax fl fops a b c = r_nanmax fops a b c) /\
-  (forall a b c, @g_nancount Z (zops true 0) a b c = r_nancount (zops true 0) a b c).
+  (forall a b c, @g_nancount Z (zops true 0) a b c = r_nancount (zops true 0) a b c) /\
+  (* the null-keeping sum of timestamp / timedelta columns, and the one place that selects it *)
+  (forall a b c, @g_nullsum Z (zops true 0) a b c = r_nullsum (zops true 0) a b c) /\
+  Gen.TablesGen.gen_direct_reducers = direct_reducers.
 Proof.
-  exact (conj (tie_nansum fops) (conj (tie_sum fops) (conj (tie_nanmin fops) (conj (tie_nanmax fops) (tie_nancount (zops true 0)))))).
+  exact (conj (tie_nansum fops) (conj (tie_sum fops) (conj (tie_nanmin fops) (conj (tie_nanmax fops)
+        (conj (tie_nancount (zops true 0)) (conj (tie_nullsum (zops true 0)) tie_direct_reducers)))))).
 Qed.
 Print Assumptions C08_reducers_are_the_source's.
 
